@@ -109,11 +109,14 @@ Farthest == IF ctrIdx = <<>> THEN {1} ELSE ArgMaxSet(dist)
 (* plain update: distance to the new center for every frame *)
 PlainDist(c) == DistVec(metric, pts, pts[c])
 
-(* triangle-inequality shortcut (kcenters.py L287-296): recompute only frames *)
-(* with dist[i] > d(center(asg[i]), new)/2; others keep their distance        *)
+(* triangle-inequality shortcut (kcenters.py, _kcenters_iteration): recompute  *)
+(* only frames with dist[i] > d(center(asg[i]), new)/2; others keep their     *)
+(* distance.  The centers are the centers themselves (ctrXY) -- the pinned    *)
+(* tree took the frames at ctrIdx, which differ from supplied initial centers *)
+(* that are not frames of the data (repaired, see known_findings.json)        *)
 ShortcutApplies == ti /\ \A i \in Frames : asg[i] >= 1
 ShortcutDist(c) ==
-  LET cc == [j \in DOMAIN ctrIdx |-> D(metric, pts[ctrIdx[j]], pts[c])]
+  LET cc == [j \in DOMAIN ctrXY |-> D(metric, ctrXY[j], pts[c])]
   IN [i \in Frames |-> IF GtHalf(metric, dist[i], cc[asg[i]]) THEN Dm(i, pts[c]) ELSE dist[i]]
 
 NewDist(c) == IF ShortcutApplies THEN ShortcutDist(c) ELSE PlainDist(c)
